@@ -152,8 +152,11 @@ class Cell(object):
         # Numpy arrays aren't hashable, so manually handle the values dictionary
         value_hashes = []
         for k, v in self._values.items():
-            if isinstance(v, np.ndarray):
-                item_hash = hash((k, tuple(v)))
+            if isinstance(v, np.ndarray) and v.ndim == 0:
+                # A 0-d array compares equal to the scalar it holds, so it must hash like it
+                item_hash = hash((k, v.item()))
+            elif isinstance(v, np.ndarray):
+                item_hash = hash((k, tuple(v.ravel())))
             else:
                 item_hash = hash((k, v))
             value_hashes.append(item_hash)
